@@ -200,6 +200,28 @@ def r2_model_reader(ctx, res):
         res.inst(key, lmf.loc(f.node), stmt)
         if stmt not in norm(f.node):
             res.find(key, lmf.loc(f.node), f'{fname} no longer converts {k!r} with `{stmt}`: the loaded value has the wrong type for the model')
+    # character data may arrive in several callbacks (expat buffer boundaries, entity references): the handler must append
+    cd = ctx.repo.func('lmf', '_make_parser.<locals>.char_data')
+    key = 'reader:text-accumulates'
+    augs = [n for n in walk_no_nested(cd.node) if isinstance(n, ast.AugAssign) and isinstance(n.op, ast.Add) and norm(n.target) == "parent['text']"]
+    plain = [n for n in walk_no_nested(cd.node) if isinstance(n, ast.Assign) and any(norm(t) == "parent['text']" for t in n.targets)]
+    res.inst(key, lmf.loc(cd.node), "parent['text'] += data")
+    if len(augs) != 1 or plain:
+        res.find(key, lmf.loc(cd.node), "the character-data handler no longer appends to parent['text'] (expat delivers long or entity-bearing "
+                                        'text in several pieces; assigning keeps only the last piece, so text longer than the parser buffer is '
+                                        'truncated on load)')
+    mp = ctx.repo.func('lmf', '_make_parser')
+    key = 'reader:handlers-installed'
+    src = norm(mp.node)
+    res.inst(key, lmf.loc(mp.node), 'Start/End/CharacterData handlers')
+    for h in ('p.StartElementHandler = start', 'p.EndElementHandler = end', 'p.CharacterDataHandler = char_data'):
+        if h not in src:
+            res.find(key, lmf.loc(mp.node), f'the parser is no longer wired with `{h}`')
+    en = ctx.repo.func('lmf', '_make_parser.<locals>.end')
+    key = 'reader:whitespace-normalised'
+    res.inst(key, lmf.loc(en.node), "' '.join(elem['text'].split()) unless xml:space=preserve")
+    if "elem['text'] = ' '.join(elem['text'].split())" not in norm(en.node) or "elem.get(_XMLSPACEATTR, '') != 'preserve'" not in norm(en.node):
+        res.find(key, lmf.loc(en.node), 'text content is no longer whitespace-normalised (unless xml:space="preserve") at the end of an element')
     # typed keys of the model that need a conversion are all in the table
     for cls, keys in model.classes.items():
         for k, (ann, req) in keys.items():
